@@ -70,6 +70,7 @@ func rulesC14(c *Ctx, r *Report) {
 	}
 	r.Extra["codons_checked"] = 64
 	rulesTranslate(c, r, g, codon)
+	rulesTranslatePanics(c, r)
 
 	// ---- T-AMINO + VSA-AN
 	where = "sequtil.aminoToName"
@@ -919,4 +920,49 @@ func isLoopHeader(b *ssa.BasicBlock) bool {
 		}
 	}
 	return false
+}
+
+// rulesTranslatePanics (TR-PANICS): Translate's explicit panics are its two documented ones — the length is not a
+// multiple of 3, and a codon is not in the table: every path from the entry to a panic takes the `len(src) % 3 != 0`
+// edge or the "looked-up value is 0" edge. Any other panic (an empty input, a length limit) refuses input the
+// property requires to be translated.
+func rulesTranslatePanics(c *Ctx, r *Report) {
+	root := c.fn("sequtil", "Translate")
+	if root == nil {
+		return
+	}
+	n := 0
+	for _, f := range c.stageFuncs(root) {
+		s := newSymb(f)
+		instrs(f, func(in ssa.Instruction) {
+			pn, ok := in.(*ssa.Panic)
+			if !ok {
+				return
+			}
+			n++
+			ok2, why := pathsAllTake(pn.Block(), func(l edgeLit, _ bool) (string, bool) {
+				x, kind, k, okc := cmpCanon(l)
+				if !okc {
+					return "", false
+				}
+				e := s.expr(x).String()
+				// len(src) % 3 != 0
+				if kind == "ne" && k == 0 && strings.HasPrefix(e, "(builtin:len(") && strings.HasSuffix(e, " % 3)") {
+					return "length not a multiple of 3", true
+				}
+				// the looked-up amino acid is 0 (a table miss)
+				if kind == "eq" && k == 0 && (strings.HasPrefix(e, "lookup(") || strings.Contains(e, "codonToAmino")) {
+					return "codon not in the table", true
+				}
+				return "", false
+			})
+			pos := c.pos(pn.Pos())
+			if pos == "" {
+				pos = c.pos(returnPos(pn.Block(), pn))
+			}
+			r.check(ok2, "TR-PANICS", fname(f), "explicit panic", pos, "behind a documented refusal: "+why,
+				"an explicit panic of Translate that is not behind `len(src) % 3 != 0` or a table miss: some input the property requires to be translated (the empty sequence, a long one) panics instead")
+		})
+	}
+	r.floor("TR-PANICS", n, 2, "explicit panics of Translate (length, table miss)")
 }
